@@ -34,6 +34,7 @@ import (
 	"io"
 	"net"
 	"net/http"
+	"os"
 	"strconv"
 	"strings"
 	"sync"
@@ -88,6 +89,10 @@ func upParse(p *parser.Packet) int {
 	s := string(p.Data)
 	k := strings.IndexByte(s, '|')
 	if k < 0 {
+		// forced-schedule rig: the payload is the bare number
+		if id, err := strconv.Atoi(s); err == nil && id >= 0 {
+			return id
+		}
 		return -1
 	}
 	id, err := strconv.Atoi(s[:k])
@@ -729,6 +734,7 @@ func upgradeMain(args []string) error {
 	n := fs.Int("n", 100, "connections (live) / repetitions per fault (fault)")
 	par := fs.Int("par", 25, "parallel connections")
 	sched := fs.String("sched", "", "forced: file with one schedule per line")
+	settleMs := fs.Int("settle", 12, "forced: quiet time that ends a step (ms)")
 	outp := fs.String("out", "-", "")
 	fs.Parse(args)
 	out, err := vk.NewOut(*outp)
@@ -737,7 +743,7 @@ func upgradeMain(args []string) error {
 	}
 	defer out.Close()
 	if *mode == "forced" {
-		return upForcedMain(*sched, out)
+		return upForcedMain(*sched, *settleMs, *par, out)
 	}
 
 	rig, err := newUpRig(1 * time.Second)
@@ -779,6 +785,281 @@ func upgradeMain(args []string) error {
 	return nil
 }
 
-func upForcedMain(schedFile string, out *vk.Out) error {
-	return fmt.Errorf("forced mode not built yet")
+// ---------------------------------------------------------------------------- forced schedules (raw peer)
+
+// One row per schedule.  Actions: s = server application sends the next message; g = the peer starts a GET
+// poll; d = the peer dials the candidate websocket; p = probe PING; u = UPGRADE; m = message on the
+// websocket; o = message by POST.  After every action the rig waits until nothing has moved for `settle`
+// and records what the server produced.  Packets are coded: n >= 0 message n, -1 NOOP, -2 PONG, -3 other,
+// -9 a non-200 poll response.
+type upObs struct {
+	Poll  []int  `json:"poll"` // packets of the poll response that completed during this step (nil = none)
+	HasP  bool   `json:"hasp"`
+	Ws    []int  `json:"ws"`    // frames received on the websocket during this step
+	SRecv []int  `json:"srecv"` // all messages delivered to the server application so far
+	Tr    string `json:"tr"`
+	WsErr bool   `json:"wserr"` // the websocket was closed by the server during this step
 }
+
+type upForcedRow struct {
+	Kind  string  `json:"kind"`
+	Sched string  `json:"sched"`
+	Obs   []upObs `json:"obs"`
+	Env   string  `json:"env"`
+}
+
+func upDecodePayload(body string) []int {
+	res := []int{}
+	if body == "" {
+		return res
+	}
+	for _, part := range strings.Split(body, "\x1e") {
+		res = append(res, upDecodePacket(part))
+	}
+	return res
+}
+
+func upDecodePacket(part string) int {
+	if part == "" {
+		return -3
+	}
+	switch part[0] {
+	case '4':
+		id, err := strconv.Atoi(part[1:])
+		if err != nil {
+			return -3
+		}
+		return id
+	case '6':
+		return -1
+	case '3':
+		return -2
+	}
+	return -3
+}
+
+// exp (optional): per step "hasPoll,nWs,nSrecv,onWs" as predicted by the model; the rig then waits (bounded)
+// until at least that much has been observed, plus a short quiet time, instead of guessing a settle time.
+func (rig *upRig) runForced(sched string, exp [][4]int, settle time.Duration) upForcedRow {
+	row := upForcedRow{Kind: "forced", Sched: sched}
+	base := "http://" + rig.addr + "/engine.io/?EIO=4"
+	hc := &http.Client{Transport: &http.Transport{}}
+	defer hc.CloseIdleConnections()
+	resp, err := hc.Get(base + "&transport=polling")
+	if err != nil {
+		row.Env = "handshake: " + err.Error()
+		return row
+	}
+	body, _ := io.ReadAll(resp.Body)
+	resp.Body.Close()
+	k := strings.Index(string(body), `"sid":"`)
+	if resp.StatusCode != 200 || k < 0 {
+		row.Env = "handshake body"
+		return row
+	}
+	sid := string(body)[k+7:]
+	sid = sid[:strings.IndexByte(sid, '"')]
+	v, ok := rig.recs.Load(sid)
+	if !ok {
+		row.Env = "server record missing"
+		return row
+	}
+	srec := v.(*upServerRec)
+	defer srec.sock.Close()
+
+	var mu sync.Mutex
+	var last time.Time
+	touch := func() { mu.Lock(); last = time.Now(); mu.Unlock() }
+	pollCh := make(chan []int, 4)
+	pollBusy := false
+	wsCh := make(chan int, 64)
+	wsErr := make(chan struct{}, 1)
+	var conn *websocket.Conn
+	ctx, cancel := context.WithCancel(context.Background())
+	defer cancel()
+	sSent, cSent := 0, 0
+
+	for step, a := range sched {
+		touch()
+		switch a {
+		case 's':
+			p, _ := parser.NewPacket(parser.PacketTypeMessage, false, []byte(strconv.Itoa(sSent)))
+			sSent++
+			srec.sock.Send(p)
+		case 'g':
+			if pollBusy { // one GET at a time (the model skips it too)
+				break
+			}
+			pollBusy = true
+			go func() {
+				r, err := hc.Get(base + "&transport=polling&sid=" + sid)
+				if err != nil {
+					touch()
+					pollCh <- []int{-9}
+					return
+				}
+				b, _ := io.ReadAll(r.Body)
+				r.Body.Close()
+				touch()
+				if r.StatusCode != 200 {
+					pollCh <- []int{-9}
+				} else {
+					pollCh <- upDecodePayload(string(b))
+				}
+			}()
+		case 'd':
+			c, _, err := websocket.Dial(ctx, "ws://"+rig.addr+"/engine.io/?EIO=4&transport=websocket&sid="+sid, nil)
+			if err != nil {
+				row.Env = "ws dial: " + err.Error()
+				return row
+			}
+			conn = c
+			defer conn.Close(websocket.StatusNormalClosure, "")
+			go func() {
+				for {
+					_, b, err := c.Read(ctx)
+					touch()
+					if err != nil {
+						select {
+						case wsErr <- struct{}{}:
+						default:
+						}
+						return
+					}
+					wsCh <- upDecodePacket(string(b))
+				}
+			}()
+		case 'p', 'u', 'm':
+			if conn == nil {
+				row.Env = "schedule uses the websocket before dialing"
+				return row
+			}
+			msg := "2probe"
+			if a == 'u' {
+				msg = "5"
+			} else if a == 'm' {
+				msg = "4" + strconv.Itoa(cSent)
+				cSent++
+			}
+			conn.Write(ctx, websocket.MessageText, []byte(msg))
+		case 'o':
+			r, err := hc.Post(base+"&transport=polling&sid="+sid, "text/plain;charset=UTF-8", strings.NewReader("4"+strconv.Itoa(cSent)))
+			cSent++
+			if err == nil {
+				io.ReadAll(r.Body)
+				r.Body.Close()
+			}
+		}
+		if step < len(exp) {
+			e := exp[step]
+			t0 := time.Now()
+			for time.Since(t0) < 3*time.Second {
+				tr := 0
+				if srec.sock.TransportName() == "websocket" {
+					tr = 1
+				}
+				if len(pollCh) >= e[0] && len(wsCh) >= e[1] && srec.side.recvLen() >= e[2] && tr == e[3] {
+					break
+				}
+				time.Sleep(300 * time.Microsecond)
+			}
+			touch()
+		}
+		// settle: nothing moved for `settle` (deliveries to the server application count as movement)
+		prev := srec.side.recvLen()
+		t0 := time.Now()
+		for time.Since(t0) < 40*settle {
+			time.Sleep(settle / 4)
+			if n := srec.side.recvLen(); n != prev {
+				prev = n
+				touch()
+			}
+			mu.Lock()
+			idle := time.Since(last)
+			mu.Unlock()
+			if idle >= settle {
+				break
+			}
+		}
+		o := upObs{Ws: []int{}, Tr: srec.sock.TransportName()}
+		select {
+		case pk := <-pollCh:
+			o.Poll, o.HasP, pollBusy = pk, true, false
+		default:
+			o.Poll = []int{}
+		}
+	drain:
+		for {
+			select {
+			case f := <-wsCh:
+				o.Ws = append(o.Ws, f)
+			default:
+				break drain
+			}
+		}
+		select {
+		case <-wsErr:
+			o.WsErr = true
+		default:
+		}
+		srec.side.mu.Lock()
+		o.SRecv = append([]int{}, srec.side.recv...)
+		srec.side.mu.Unlock()
+		row.Obs = append(row.Obs, o)
+	}
+	return row
+}
+
+func upForcedMain(schedFile string, settleMs int, par int, out *vk.Out) error {
+	data, err := io.ReadAll(func() io.Reader {
+		f, err := osOpen(schedFile)
+		if err != nil {
+			return strings.NewReader("")
+		}
+		return f
+	}())
+	if err != nil {
+		return err
+	}
+	rig, err := newUpRig(5 * time.Second)
+	if err != nil {
+		return err
+	}
+	defer rig.close()
+	sem := make(chan struct{}, par)
+	var wg sync.WaitGroup
+	for _, line := range strings.Split(string(data), "\n") {
+		line = strings.TrimSpace(line)
+		if line == "" {
+			continue
+		}
+		wg.Add(1)
+		sem <- struct{}{}
+		go func(line string) {
+			defer wg.Done()
+			defer func() { <-sem }()
+			f := strings.Fields(line)
+			var exp [][4]int
+			if len(f) > 1 {
+				for _, st := range strings.Split(f[1], ";") {
+					var e [4]int
+					for i, x := range strings.Split(st, ",") {
+						if i < 4 {
+							e[i], _ = strconv.Atoi(x)
+						}
+					}
+					exp = append(exp, e)
+				}
+			}
+			row := rig.runForced(f[0], exp, time.Duration(settleMs)*time.Millisecond)
+			if row.Env != "" {
+				row = rig.runForced(f[0], exp, time.Duration(settleMs)*time.Millisecond)
+			}
+			out.Put(row)
+		}(line)
+	}
+	wg.Wait()
+	return nil
+}
+
+func osOpen(path string) (*os.File, error) { return os.Open(path) }
